@@ -268,6 +268,18 @@ def main():
             print(f"{m['status']:13s} {m['file']}:{m['line']} [{m['op']}] {m['func']}: {m['old'][:70]!r} -> {m['new'][:70]!r}  checks={ {k: v['rc'] for k, v in m.get('checks', {}).items()} }")
         return
     files = [f for f in args.files.split(",") if f] or list(FILES)
+    # the campaign works on a frozen copy of the repository, so that commits to /repo meanwhile do not disturb it
+    global REPO
+    head = subprocess.run(["git", "-C", REPO, "rev-parse", "--short", "HEAD"], capture_output=True, text=True).stdout.strip()
+    base = f"/dev/shm/vmut_base_{os.getpid()}"
+    shutil.rmtree(base, ignore_errors=True)
+    os.makedirs(base)
+    for d in ("src", "tests"):
+        shutil.copytree(f"{REPO}/{d}", f"{base}/{d}")
+    for f in ("pyproject.toml", "setup.cfg", "setup.py", "README.rst", "changelog.rst"):
+        if os.path.exists(f"{REPO}/{f}"):
+            shutil.copy(f"{REPO}/{f}", base)
+    REPO = base
     rng = random.Random(args.seed)
     pool = []
     for f in files:
@@ -280,7 +292,6 @@ def main():
         for ms in pool:
             if ms and len(picked) < args.n:
                 picked.append(ms.pop())
-    head = subprocess.run(["git", "-C", REPO, "rev-parse", "--short", "HEAD"], capture_output=True, text=True).stdout.strip()
     results = []
     t0 = time.time()
     with ThreadPoolExecutor(max_workers=args.par) as ex:
@@ -289,6 +300,7 @@ def main():
             print(f"[{k + 1}/{len(picked)} {time.time() - t0:.0f}s] {res['status']:16s} {res['file']}:{res['line']} [{res['op']}] {res['old'][:50]!r} -> {res['new'][:50]!r} {res.get('caught_by', '')}", flush=True)
             os.makedirs(os.path.dirname(os.path.abspath(args.out)), exist_ok=True)
             json.dump({"repo_head": head, "seed": args.seed, "n": len(picked), "mutants": results}, open(args.out, "w"), indent=1)
+    shutil.rmtree(base, ignore_errors=True)
 
 
 if __name__ == "__main__":
